@@ -36,17 +36,17 @@ impl Prop for C07 {
         vec!["per-participant polynomials are seeded streams (all values are covered for dealer sharing in C06 on the tiny field; the DKG sums the same evaluations)".into()]
     }
     fn bound(&self, tier: Tier) -> String {
-        format!("n<={} (ed448 n<={}), all t, 5 id kinds, {} seed(s)", tier.pick(4, 6), tier.pick(3, 5), tier.pick(1, 3))
+        format!("n<={} (ed448 n<={}), all t, 5 id kinds, {} seed(s)", tier.pick(5, 8), tier.pick(4, 6), tier.pick(1, 3))
     }
     fn required_counters(&self) -> Vec<&'static str> {
         vec!["dkg_completed", "t_subsets_interpolated", "sessions_aggregated"]
     }
     fn cases(&self, tier: Tier, seed: u64) -> Vec<Value> {
         let mut out = vec![];
-        let nmax = tier.pick(4u16, 6u16);
+        let nmax = tier.pick(5u16, 8u16);
         for (n, t) in super::c01::shapes(nmax) {
             for suite in REAL_SUITES.iter().copied().chain(["tiny11", "tiny13"]) {
-                if suite == "ed448" && n > tier.pick(3, 5) {
+                if suite == "ed448" && n > tier.pick(4, 6) {
                     continue;
                 }
                 for idkind in ALL_IDKINDS {
